@@ -484,6 +484,9 @@ func (e *Env) evalCall(n *ECall) Val {
 		switch e.sortOfVal(v) {
 		case "Slice":
 			return b(fmt.Sprintf("(< (s_base %s) %s)", v.Term, e.st.alloc))
+		case "Iface":
+			// an error value: its *HTTPError (if any) exists
+			return b(fmt.Sprintf("(< (asHTTP %s) %s)", v.Term, e.st.alloc))
 		default:
 			return b(fmt.Sprintf("(< %s %s)", v.Term, e.st.alloc))
 		}
